@@ -19,6 +19,7 @@ RULE = (
     "sub-range, or maxdelay > 0. A scale lane repeats the comparison on one stream of ordinary size (70 001 samples x 32 channels in 5 member files, "
     "gulps {16384, 4099, 65536, 70001, 7000} (statistics also gulp 64 = 1094 blocks), 4 ranges, DMs up to maxdelay 3260 samples)"
 )
+SCALE_LANE = 'one stream of 70 001 samples x 32 channels in 5 member files at 3 (thorough 5) depths: gulps {16384, 4099, 65536, 70001, 7000} (+64 for statistics) x 4 ranges x {collapse, bandpass, 3 channels, 4 DMs up to maxdelay 3260, both statistics}'
 ASSUMPTIONS = [
     "integer-valued labelled data: float32 sums are exact, so equality is bit-exact except for the moments (tolerance 50*eps32*n relative, +1e-3 absolute on skew/kurtosis)",
     "dedispersion delays are taken from the library's own Header.get_dmdelays (C09 checks that table) and counted from the earliest channel, so tables of either sign are covered (negative DMs included)",
